@@ -49,7 +49,8 @@ CONSTANTS NV,          \* generator: size of the value table (odd)
           EzSet,       \* subset of {0,1,2}: zero entries of a row not stored / stored as 0.0 / as -0.0
           WithCone,    \* BOOLEAN: one second-order cone may be added
           ClsSet,      \* subset of {"LinProg","SOCProg","GCProg"} (lp / socp / ro Model)
-          ModeSet,     \* subset of {"primal","dual"}: which do_math() formula the harness exports
+          ModeSet,     \* subset of {"primal","dual","robust"}: which formula the harness exports: do_math(),
+                       \* do_math(primal=False), or the robust counterpart of the program with row 1 uncertain
           DirSet,      \* subset of {"min","max"}
           LinShowFull, \* TRUE: LinProg.show() lists Obj/UB/LB/Type rows like SOCProg.show()
           TraceFile    \* trace validation: ndjson file, one [P, lp, show] per line; "" in generator runs
@@ -461,7 +462,8 @@ Finish ==
     /\ \E o \in [1..Cols -> ObjSet], c \in ClsSet, md \in ModeSet, d \in DirSet :
           /\ (g.cones # <<>>) => (c # "LinProg")
           /\ (md = "dual") => (\A j \in 1..Cols : g.vt[j] = "C")
-          /\ (md = "dual") => (\A i \in 1..Len(g.rows) : g.rows[i].ez = 0)
+          /\ (md # "primal") => (\A i \in 1..Len(g.rows) : g.rows[i].ez = 0)
+          /\ (md = "robust") => (c = "GCProg" /\ Len(g.rows) >= 1 /\ g.cones = <<>>)
           /\ g' = [g EXCEPT !.phase = "done", !.obj = o, !.cls = c, !.mode = md, !.dir = d]
     /\ UNCHANGED t
 
@@ -517,31 +519,31 @@ TStart ==      \* transcription conformance: the real stream equals what the tra
     /\ t' = [t EXCEPT !.phase = "run"]
     /\ UNCHANGED g
 
-Step(K) ==
+Can(K) ==       \* the next event is of a kind in K and the ideal accepts it here
     /\ t.phase = "run" /\ t.pos <= Len(TEvs)
     /\ TEvs[t.pos].k \in K
     /\ TWhy = ""
-    /\ t' = [t EXCEPT !.pos = @ + 1, !.st = TUpd]
-    /\ UNCHANGED g
+Advance == [t EXCEPT !.pos = @ + 1, !.st = TUpd]
 
-TSection == Step({"Section"})
-TObjTerm == Step({"ObjTerm"})
-TRowStart == Step({"RowStart"})
-TTerm == Step({"Term"})
-TRel == Step({"Rel"})
-TRhs == Step({"Rhs"})
-TQRow == Step({"QRow"})
-TBound == Step({"Bound"})
-TBoundOther == Step({"Free", "Lower", "Upper"})
-TGeneral == Step({"General"})
-TBinary == Step({"Binary"})
-TEnd == Step({"End"})
-TSHead == Step({"SHead"})
-TSRow == Step({"SRow"})
-TSCell == Step({"SCell"})
-TSSense == Step({"SSense"})
-TSConst == Step({"SConst"})
-TSEnd == Step({"SEnd"})
+(* one action per event kind (so that TLC's coverage shows which kinds were exercised) *)
+TSection == Can({"Section"}) /\ t' = Advance /\ UNCHANGED g
+TObjTerm == Can({"ObjTerm"}) /\ t' = Advance /\ UNCHANGED g
+TRowStart == Can({"RowStart"}) /\ t' = Advance /\ UNCHANGED g
+TTerm == Can({"Term"}) /\ t' = Advance /\ UNCHANGED g
+TRel == Can({"Rel"}) /\ t' = Advance /\ UNCHANGED g
+TRhs == Can({"Rhs"}) /\ t' = Advance /\ UNCHANGED g
+TQRow == Can({"QRow"}) /\ t' = Advance /\ UNCHANGED g
+TBound == Can({"Bound"}) /\ t' = Advance /\ UNCHANGED g
+TBoundOther == Can({"Free", "Lower", "Upper"}) /\ t' = Advance /\ UNCHANGED g
+TGeneral == Can({"General"}) /\ t' = Advance /\ UNCHANGED g
+TBinary == Can({"Binary"}) /\ t' = Advance /\ UNCHANGED g
+TEnd == Can({"End"}) /\ t' = Advance /\ UNCHANGED g
+TSHead == Can({"SHead"}) /\ t' = Advance /\ UNCHANGED g
+TSRow == Can({"SRow"}) /\ t' = Advance /\ UNCHANGED g
+TSCell == Can({"SCell"}) /\ t' = Advance /\ UNCHANGED g
+TSSense == Can({"SSense"}) /\ t' = Advance /\ UNCHANGED g
+TSConst == Can({"SConst"}) /\ t' = Advance /\ UNCHANGED g
+TSEnd == Can({"SEnd"}) /\ t' = Advance /\ UNCHANGED g
 
 TReject ==
     /\ t.phase = "run" /\ t.pos <= Len(TEvs)
